@@ -56,7 +56,7 @@ class ScenarioResult:
 
 
 def decide(m, sc_name, timeout=120, portfolio=solve.DEFAULT_PORTFOLIO, extra_goals=(), workdir=None,
-           assume_no_unwind=True, check_unwind=True, expected_cover=(), log=None, max_violations=2, par=4, split_above=2500, max_chunks=3):
+           assume_no_unwind=True, check_unwind=True, expected_cover=(), log=None, max_violations=2, par=4, split_above=2500, max_chunks=3, progress_tids=()):
     """pose every obligation of machine m to the solver. Returns ScenarioResult"""
     res = ScenarioResult(sc_name)
     workdir = workdir or os.path.join(BUILD, 'smt')
@@ -64,6 +64,10 @@ def decide(m, sc_name, timeout=120, portfolio=solve.DEFAULT_PORTFOLIO, extra_goa
     if assume_no_unwind:
         noun = [Not(g) for g, w in m.unwound if g is not True]
         if any(g is True for g, w in m.unwound):
+            if progress_tids:
+                res.violations.append({'kind': 'progress', 'where': 'loop exceeds ' + [w for g, w in m.unwound if g is True][0], 'model': {}, 'tag': None, 'obligation_index': -1})
+                res.stats = dict(m.stats); res.funcs = dict(m.funcs_encoded)
+                return res
             res.error = 'loop bound exceeded on every path: ' + '; '.join(w for g, w in m.unwound if g is True)
             return res
 
@@ -129,7 +133,24 @@ def decide(m, sc_name, timeout=120, portfolio=solve.DEFAULT_PORTFOLIO, extra_goa
         o, r = ask('unwinding-assertion[%d loops]' % len(m.unwound), 'unwind', goal, len(m.assumptions), use_noun=False)
         res.unwound_complete = (r.status == 'unsat')
 
+    def progress_task():
+        # C16: the observed threads must finish their operations within the unrolled number of loop iterations from every
+        # state the (arbitrarily stopped) other threads can leave behind
+        import re as _re
+        fl = [(g, w) for g, w in m.unwound if int(_re.search(r'tid (\d+)\)', w).group(1)) in progress_tids] if m.unwound else []
+        if not fl: return
+        goal = OrL(g for g, w in fl)
+        o, r = ask('progress[%d loops of thread(s) %s]' % (len(fl), list(progress_tids)), 'progress', goal, len(m.assumptions), use_noun=False)
+        if r.status == 'sat':
+            cache = {}
+            which = [w for g, w in fl if evaluate(g, r.model, cache) is True]
+            with lock:
+                res.violations.append({'kind': 'progress', 'where': 'loop exceeds %s' % (which[0] if which else '?'), 'model': r.model, 'tag': None, 'obligation_index': -1})
+        elif r.status != 'unsat':
+            with lock: res.inconclusive.append(o)
+
     tasks = []
+    if progress_tids: tasks.append((progress_task, ()))
     groups = {}
     for i, ob in enumerate(m.obligations):
         groups.setdefault(ob.nassume, []).append((i, ob))
